@@ -636,8 +636,10 @@ impl<Backing : AsRef<[u32]> + AsMut<[u32]>> DrawTarget<Backing> {
         // the surface would otherwise give a layer that the span blitters' scratch row
         // and the full-surface clip masks do not cover
         let rect = self.clip_bounds().intersection_unchecked(&intrect(0, 0, self.width, self.height));
-        // an empty clip (disjoint or inverted rectangles) can have a negative extent
-        let len = if rect.is_empty() { 0 } else { (rect.size().width * rect.size().height) as usize };
+        // an empty clip (disjoint or inverted rectangles) can have a negative extent, and one
+        // that does not even fit an i32: such a layer is the empty rectangle
+        let rect = if rect.is_empty() { intrect(0, 0, 0, 0) } else { rect };
+        let len = (rect.size().width * rect.size().height) as usize;
         self.layer_stack.push(Layer {
             rect,
             buf: vec![0; len],
